@@ -101,6 +101,12 @@ CHECKS = {
         text="Bounded-exhaustive exploration: 7 800 two-statement programs (15 statement kinds squared x 6 wrappers x 4 docstring layouts x module/class scope) - the documented names, kinds (function, method, class method, static method, property, class, exception), cleaned docstrings, async flag and the nested-class namespaces equal what exec of the same text yields, nothing invented, nothing twice; 1 859 literal shapes - the inferred type is the value's actual type and an element type is never wrong.",
         note="Trusted: CrossHair's exhaustion verdict over the choice variables; CPython exec/inspect as oracle; the generator tables in harness/c03_defs.py.",
     ),
+    "C11": dict(
+        level="exploration", design="DESIGN.md §3 C11",
+        technique="CrossHair (z3) enumerates project shapes x privacy rule lists x themes and certifies exhaustion; each is rendered by the real TemplateWriter and the written pages are parsed and crawled",
+        text="Bounded-exhaustive exploration: 3 600 renders (thorough 32 400): template project shapes (re-exports, duplicate definitions, nested classes, consumers with cross-references) x 9 privacy rule lists x theme; in every output directory each relative href/src resolves to a written file and its fragment to an id/name in it, url fields of the search documents likewise, and every visible object has its page/anchor. The rendering itself carries no symbolic values: this is exploration of bounded inputs, labelled as such.",
+        note="Trusted: CrossHair's exhaustion verdict over the choice variables; html.parser; lib/templates.py and lib/crawl.py. File-system side effects unblocked (mkdtemp only).",
+    ),
 }
 
 NOT_APPLICABLE = {
